@@ -373,7 +373,7 @@ with pargs (fuel : nat) (ls : list lexeme) {struct fuel} : option (list expr * l
 
 Definition parse_expr (s : string) : option expr :=
   let ls := lex s in
-  match pexpr (S (List.length ls)) ls with
+  match pexpr (2 * List.length ls) ls with
   | Some (e, []) => Some e
   | _ => None
   end.
